@@ -417,6 +417,30 @@ def _stack_insts(M, q, insts):
         return
     good = all(a.base == "self.objs.values()" and a.elt == "_" and set(a.filters) <= {flt} for a in alts)
     unfiltered = [a for a in alts if not a.filters]
+    if not (good and unfiltered):
+        # per path: a local the filter goes through (`sel = object if include_types is None else include_types`) is put back and
+        # decided on each side of its condition (isinstance(x, object) holds for everything)
+        from .. import sympaths as SP
+        from ..model import body_without_docstring
+        try:
+            paths = SP.enumerate_paths(body_without_docstring(fn.node))
+        except OverflowError:
+            paths = []
+        palts = set()
+        for p_ in paths:
+            if p_.exit == "return" and isinstance(p_.ret, ast.Call) and p_.ret.args:
+                d_ = SE.describe(p_.ret.args[0], {})
+                if d_ is None:
+                    palts = None
+                    break
+                palts |= set(d_)
+            elif p_.exit != "raise":
+                palts = None
+                break
+        if palts:
+            alts = palts
+            good = all(a.base == "self.objs.values()" and a.elt == "_" and set(a.filters) <= {flt} for a in alts)
+            unfiltered = [a for a in alts if not a.filters]
     if good and unfiltered:
         insts.append(R.ok("C12.R5", f"{owner}.stack.selection", file, line, idiom="all lists, or isinstance(list, include_types)"))
     else:
@@ -482,7 +506,21 @@ def rule_r6(ctx) -> List[R.Inst]:
         body = loops[0].body
         good = args == ["self.stackers", f"{val_p}.iloc"] and len(tg) == 2 and len(body) == 1 and \
             unparse(body[0]).replace(" ", "") == f"{tg[0]}[{key_p}]={tg[1]}"
-    insts.append(R.ok("C12.R6", "MapSet.Stacker.__setitem__", file, line, idiom="zip(stackers, value.iloc): row i -> chart i") if good else
+    idiom6 = "zip(stackers, value.iloc): row i -> chart i"
+    if not good:
+        # index form: for n in range(<count>): self.stackers[n][key] = value.iloc[n]   (locals bound once put back)
+        fn2 = M.nfn(q, subst=True)
+        loops2 = [n for n in walk_no_nested(fn2.node) if isinstance(n, ast.For)]
+        if len(loops2) == 1 and isinstance(loops2[0].target, ast.Name) and isinstance(loops2[0].iter, ast.Call) and \
+                unparse(loops2[0].iter.func) == "range" and len(loops2[0].iter.args) == 1 and len(loops2[0].body) == 1:
+            ix = loops2[0].target.id
+            cnt = unparse(loops2[0].iter.args[0]).replace(" ", "")
+            counts = {f"min(len(self.stackers),len({val_p}))", f"min(len({val_p}),len(self.stackers))", "len(self.stackers)", f"len({val_p})"}
+            st = unparse(loops2[0].body[0]).replace(" ", "")
+            if cnt in counts and st == f"self.stackers[{ix}][{key_p}]={val_p}.iloc[{ix}]":
+                good = True
+                idiom6 = f"for n in range({cnt}): stackers[n][key] = value.iloc[n]: row n -> chart n"
+    insts.append(R.ok("C12.R6", "MapSet.Stacker.__setitem__", file, line, idiom=idiom6) if good else
                  R.viol("C12.R6", "MapSet.Stacker.__setitem__", file, line,
                         "rows of the assigned frame are not paired positionally with the per-chart stackers",
                         construct=unparse(loops[0])[:160] if loops else "no loop"))
